@@ -251,7 +251,7 @@ func runC16(c *Ctx) {
 		if p == nil {
 			continue
 		}
-		ruleResetComplete(c, p)
+		ruleResetComplete(c, p, "C16.reset")
 		ruleGrowByAppend(c, p, "C16.fresh")
 		ruleEncoderPure(c, p, "C16.pure")
 		ruleResetReceiver(c, p, "C16.reset-recv")
@@ -280,6 +280,8 @@ func runC16(c *Ctx) {
 	ruleNoAdopt(c, p, "C16.alias")
 	ruleAppendTail(c, p, "C16.tail")
 	ruleScratchAlias(c, p, "C16.scratch")
+	ruleAllColumns(c, p, "C16.all-columns")
+	ruleKeyWidth(c, p, "C16.keywidth")
 	ruleAdopt(c, p, "C16.adopt")
 	ruleInferMaps(c, p, "C16.exact")
 	c.R.Assumptions = append(c.R.Assumptions,
@@ -287,8 +289,7 @@ func runC16(c *Ctx) {
 }
 
 // ruleResetComplete (C16.reset)
-func ruleResetComplete(c *Ctx, p *core.Program) {
-	rule := "C16.reset"
+func ruleResetComplete(c *Ctx, p *core.Program, rule string) {
 	c.R.Rule(rule, "E9 field effects: for every column type, each content-carrying field (slice, map, or nested column) that Append*, DecodeColumn or Prepare assign or grow is cleared by Reset (assignment, nested Reset, delete/clear), or the column itself (`*c`) is re-sliced; a helper returning the address of one of several fields counts for all of them")
 	cfg := p.Cfg.Name
 	n := 0
@@ -1010,6 +1011,8 @@ func runC18(c *Ctx) {
 	ruleEchoedTypeValidated(c, p, "C18.echo")
 	ruleAutoRecordsType(c, p, "C18.auto-records")
 	ruleNoCommaSplit(c, p, "C18.comma-split")
+	ruleAutoTargetsKept(c, p, "C18.targets-kept")
+	ruleElemFromEnd(c, p, "C18.elem-last")
 	ruleAdopt(c, p, "C18.adopt")
 	ruleInferTables(c, p, "C18")
 	c.R.Assumptions = append(c.R.Assumptions,
@@ -1056,6 +1059,17 @@ func ruleAdopt(c *Ctx, p *core.Program, rule string) {
 				delete(params, f)
 			}
 		}
+		// scalar fields Infer itself assigns (ColEnum.base) describe the held definition just as the reported ones do
+		inferStored := map[string]bool{}
+		for _, b := range inf.Blocks {
+			for _, in := range b.Instrs {
+				if s, ok := in.(*ssa.Store); ok {
+					if f := recvFieldOf(s.Addr, ct); f != "" && !contentField(ct, f) {
+						inferStored[f] = true
+					}
+				}
+			}
+		}
 		var stores []ssa.Instruction
 		for _, b := range inf.Blocks {
 			for _, in := range b.Instrs {
@@ -1094,7 +1108,7 @@ func ruleAdopt(c *Ctx, p *core.Program, rule string) {
 			}
 			dep := core.DependsOn(ifi.Cond, func(v ssa.Value) bool {
 				f := recvFieldOfValue(v, ct)
-				return f != "" && params[f]
+				return f != "" && (params[f] || inferStored[f])
 			}, true)
 			if dep {
 				own = append(own, core.Edge{B: b, Succ: 0}, core.Edge{B: b, Succ: 1})
